@@ -15,7 +15,27 @@ var (
 	reqPool    = []string{"^1.0.0", "*", ">=1.0.0 <2.0.0", "2.x", "latest", "^2.0.0-beta.0", "^0.1.0", "^9.0.0", "1.0.0", ""}
 	aliasNames = []string{"alias1", "x", "@s/al", "a", "Alias1"}
 	bverPool   = []string{"1.0.0", "2.0.0", "1.5.0", "1.1.0"}
+	// version strings as found in tarballs and reported by the service that are NOT well-formed
+	// npm versions: four numbers, PEP-440-like suffixes, a leading v, two numbers, an underscore,
+	// dist-tag-like words, the word that is another version's tag. None of them is written with
+	// range syntax: a requirement spelling one of them exactly selects that version by string
+	// equality (when it does not parse as a range) or by matching itself.
+	oddVers = []string{"1.2.3.4", "1.0.0rc1", "0.1.2b", "v1", "1.0", "1.0.0_1", "next", "latest", "1.0.0-"}
+	// version strings written with range syntax (operator, surrounding blank) or empty:
+	// class F-C18-bundle-version-range (rangeSyntax, classifier)
+	rangeVers = []string{"=1.0.0", " 1.0.0", "1.0.0 ", "", "=2.0.0", "^1.0.0", ">=1.0.0"}
 )
+
+// bundleVer picks the version a bundled package reports.
+func bundleVer(r *rand.Rand) string {
+	switch x := r.Intn(30); {
+	case x < 5:
+		return pick(r, oddVers)
+	case x < 6:
+		return pick(r, rangeVers)
+	}
+	return pick(r, bverPool)
+}
 
 func pick(r *rand.Rand, xs []string) string { return xs[r.Intn(len(xs))] }
 
@@ -33,6 +53,9 @@ func genDeps(r *rand.Rand, o genOpts, bundleNames []string) deps {
 	for k := r.Intn(o.maxDeps + 1); k > 0; k-- {
 		q := pick(r, o.depNames)
 		req := pick(r, reqPool)
+		if r.Intn(8) == 0 {
+			req = pick(r, oddVers) // an exact spelling of a version that is no npm version
+		}
 		name := q
 		if o.aliases && r.Intn(5) == 0 {
 			name = pick(r, aliasNames)
@@ -107,7 +130,7 @@ func genBundles(r *rand.Rand, o genOpts) (out []bundle, topNames []string) {
 		}
 		paths[path] = true
 		nodes = append(nodes, node{path, parent.depth + 1})
-		out = append(out, bundle{Path: path, Name: name, Version: pick(r, bverPool), D: genDeps(r, genOpts{depNames: o.depNames, aliases: o.aliases, noRange: o.noRange, maxDeps: 2}, nil)})
+		out = append(out, bundle{Path: path, Name: name, Version: bundleVer(r), D: genDeps(r, genOpts{depNames: o.depNames, aliases: o.aliases, noRange: o.noRange, maxDeps: 2}, nil)})
 		if parent.path == "" {
 			topNames = append(topNames, dir)
 		}
@@ -126,8 +149,13 @@ func genUniverse(r *rand.Rand, o genOpts) universe {
 		if r.Intn(6) == 0 {
 			latest = -1
 		}
+		odd := map[string]bool{}
 		for _, vi := range perm {
 			v := ver{V: verPool[vi], Default: vi == latest}
+			if o := pick(r, oddVers); r.Intn(7) == 0 && !odd[o] {
+				odd[o] = true
+				v.V = o
+			}
 			if r.Intn(10) == 0 {
 				v.Regs = []string{"https://registry.npmjs.org/"}
 				if r.Intn(2) == 0 {
@@ -187,6 +215,8 @@ func probes(r *rand.Rand, name string, v *ver, extra bool) []call {
 			call{Kind: 'v', Name: name, Version: v.V},
 			call{Kind: 's', Name: name},
 			call{Kind: 'm', Name: name, Req: true, Version: pick(r, reqPool)},
+			call{Kind: 'm', Name: name, Req: true, Version: v.V},
+			call{Kind: 'm', Name: name, Req: true, Version: pick(r, oddVers)},
 			call{Kind: 'v', Name: name, Version: "7.7.7"},
 			call{Kind: 'm', Name: "nosuch", Req: true, Version: "*"},
 			call{Kind: 's', Name: "nosuch>1.0.0>x"})
@@ -405,6 +435,24 @@ func run(c *fw.Ctx) {
 		if universeOpen(u) {
 			c.Count("universe.open")
 		}
+		if universeRangeVersion(u) {
+			c.Count("universe.bundle-version-range")
+		}
+		for _, p := range u {
+			for _, v := range p.Vers {
+				if isIn(oddVers, v.V) {
+					c.Count("odd-version.plain")
+				}
+				for _, b := range v.Bundled {
+					if isIn(oddVers, b.Version) {
+						c.Count("odd-version.bundled")
+					}
+					if rangeSyntax(b.Version) || isIn(oddVers, b.Version) {
+						c.Opf("C18 classifyv %s", fw.Hx(b.Version))
+					}
+				}
+			}
+		}
 		if it < 3 {
 			c.Sample("C18 apiclient " + ue + " " + encCalls(cs))
 		}
@@ -414,6 +462,7 @@ func run(c *fw.Ctx) {
 				p, v := u[rt[0]], &u[rt[0]].Vers[rt[1]]
 				i5, _ := c.Opf("C18 resolve %s %s %s %s", ue, encCalls(probes(r, p.Name, v, false)), fw.Hx(p.Name), fw.Hx(v.V))
 				b5 = append(b5, b5case{i5})
+				c.Check("b5calls", i5)
 				c.Count("b5.roots")
 			}
 		}
